@@ -40,3 +40,39 @@ theorem ex4_reach : ReachF exCfg ex4 := by
   funext u; simp [ex3, ex2, ex1, State.setPc, State.setIdx, upd, Sys.init, State.init]; split <;> simp_all
 
 end Babylon.BQ
+
+namespace Babylon.BQ
+open Babylon.Core Babylon.Gen.BQ
+/-! a consumer that goes to sleep on the empty queue (capacity 2): pop<true,true,true> -/
+def exPop : Call := .pop true true true
+def xw : WCtx := .single .pop 0 true true
+def sl1 : Sys := { s := Sys.init.s.setPc 1 exPop.entry, cur := upd Sys.init.cur 1 (some exPop), start := upd Sys.init.start 1 Sys.init.s.idx }
+def sl2 : Sys := { sl1 with s := (sl1.s.setIdx .pop 1).setPc 1 (.wait xw .load0) }
+def sl3 : Sys := { sl2 with s := sl2.s.setPc 1 (.wait xw (.cas 0)) }
+def sl4 : Sys := { sl3 with s := ({ sl3.s with wbit := upd sl3.s.wbit 0 true } : State).setPc 1 (.wait xw (.fwait 65536)) }
+def sl5 : Sys := { sl4 with s := sl4.s.setPc 1 (.wait xw (.asleep 65536)) }
+
+theorem xw_cmp (w : WS) (sl E : Nat) (h : (Pc.wait xw w).cmp exCfg = some (sl, E)) : E < 65536 := by
+  cases w <;> simp [Pc.cmp, xw, WCtx.E, expVer, exCfg, Cfg.cap] at h <;> omega
+
+theorem sl1_reach : ReachF exCfg sl1 := by
+  refine Reachable.tail (Reachable.base rfl) ⟨Step.call Sys.init 1 exPop rfl (by decide) ?_, ?_⟩
+  · intro sd u _ k' h; cases h
+  · exact faithful_one exCfg _ .idle (by funext u; simp [Sys.init, State.init, upd]) (fun _ => rfl) (fun _ _ h => by cases h)
+theorem sl2_reach : ReachF exCfg sl2 := by
+  refine Reachable.tail sl1_reach ⟨Step.act sl1 1 {} _ (.rmw "add" "popidx" 0 .rlx 0 1) rfl, ?_⟩
+  exact faithful_one exCfg _ exPop.entry rfl (fun _ => rfl) (fun _ _ h => by cases h)
+theorem sl_pc (p : Pc) : upd (upd (fun _ => Pc.idle) 1 exPop.entry) 1 p = upd (fun _ => Pc.idle) 1 p := by
+  funext u; simp only [upd]; split <;> rfl
+theorem sl3_reach : ReachF exCfg sl3 := by
+  refine Reachable.tail sl2_reach ⟨Step.act sl2 1 {} _ (.ld "slot" 8 .acq 0) rfl, ?_⟩
+  exact faithful_one exCfg _ (.wait xw .load0) (sl_pc _) (fun _ => rfl) (xw_cmp _)
+theorem sl4_reach : ReachF exCfg sl4 := by
+  refine Reachable.tail sl3_reach ⟨Step.act sl3 1 {} _ (.cas "slot" 8 false .acq .acq 0 65536 true 0) rfl, ?_⟩
+  refine faithful_one exCfg _ (.wait xw (.cas 0)) ?_ (fun _ => rfl) (xw_cmp _)
+  funext u; simp only [sl3, sl2, sl1, State.setPc, State.setIdx, upd, Sys.init, State.init]; split <;> rfl
+theorem sl5_reach : ReachF exCfg sl5 := by
+  refine Reachable.tail sl4_reach ⟨Step.act sl4 1 {} _ (.fwait "slot" 8 65536 true) rfl, ?_⟩
+  refine faithful_one exCfg _ (.wait xw (.fwait 65536)) ?_ (fun _ => rfl) (xw_cmp _)
+  funext u; simp only [sl4, sl3, sl2, sl1, State.setPc, State.setIdx, upd, Sys.init, State.init]; split <;> rfl
+end Babylon.BQ
